@@ -12,7 +12,7 @@
   stream bounds are more than `w` apart (the driver evaluates it per case; the excluded region is
   exercised on the real code by the thorough tier).
 -/
-import OPModel.Proofs.CascadeTargets
+import OPModel.Proofs.DeficitAll
 import OPModel.Gen.Constants
 
 namespace OP.C01
@@ -76,50 +76,7 @@ theorem di_targets_exact (tol w : Rat) (hw : 0 ≤ w) (htw : tol ≤ w) (hot col
   have h0 : 0 ≤ t.qh := by
     have := hmax t0 (by simp)
     rw [htop] at this; exact this
-  refine ⟨t, ht, ?_, ⟨xa, hatt⟩, h0, hqc, hqr⟩
-  intro x
-  set bot := (t0 :: rest).getLast (List.cons_ne_nil _ _) with hbot
-  by_cases hxt : t0 ≤ x
-  · -- above every stream: the deficit is zero
-    have : deficit hot cold x = 0 := by
-      unfold deficit
-      rw [aboveAll_top cold x (fun s h => le_trans (hhi_c s h) hxt),
-        aboveAll_top hot x (fun s h => le_trans (hhi_h s h) hxt)]; ring
-    rw [this]; exact h0
-  · have hxt' : x ≤ t0 := le_of_lt (not_le.mp hxt)
-    by_cases hxb : x ≤ bot
-    · -- below every stream: the deficit equals the one at the bottom row
-      have e : deficit hot cold x = deficit hot cold bot := by
-        unfold deficit
-        rw [aboveAll_bottom cold x (fun s h => ⟨(hr s (List.mem_append_left _ h)).1, le_trans hxb (hr s (List.mem_append_left _ h)).2.2⟩),
-          aboveAll_bottom hot x (fun s h => ⟨(hr s (List.mem_append_right _ h)).1, le_trans hxb (hr s (List.mem_append_right _ h)).2.2⟩),
-          aboveAll_bottom cold bot (fun s h => ⟨(hr s (List.mem_append_left _ h)).1, (hr s (List.mem_append_left _ h)).2.2⟩),
-          aboveAll_bottom hot bot (fun s h => ⟨(hr s (List.mem_append_right _ h)).1, (hr s (List.mem_append_right _ h)).2.2⟩)]
-      rw [e]; exact hmax bot (List.getLast_mem _)
-    · have hbx : bot ≤ x := le_of_lt (not_le.mp hxb)
-      rcases exists_cell w (cold ++ hot) rest t0 x hch hxt' hbx with e | ⟨l, u, ml, mu, hcell, hlx, hxu⟩
-      · rw [e, htop]; exact h0
-      · -- inside a cell the deficit is the interpolation of its boundary values
-        have hc_c : ∀ s ∈ cold, (s.lo ≤ l ∨ u ≤ s.lo) ∧ (s.hi ≤ l ∨ u ≤ s.hi) ∧ s.lo ≤ s.hi :=
-          fun s h => hcell.2 s (List.mem_append_left _ h)
-        have hc_h : ∀ s ∈ hot, (s.lo ≤ l ∨ u ≤ s.lo) ∧ (s.hi ≤ l ∨ u ≤ s.hi) ∧ s.lo ≤ s.hi :=
-          fun s h => hcell.2 s (List.mem_append_right _ h)
-        have ec := aboveAll_affine cold l u x hlx hxu hc_c
-        have eh := aboveAll_affine hot l u x hlx hxu hc_h
-        have hd : (u - l) * deficit hot cold x = (x - l) * deficit hot cold u + (u - x) * deficit hot cold l := by
-          unfold deficit
-          rw [mul_sub, ec, eh]; ring
-        have hu := hmax u mu
-        have hl := hmax l ml
-        have hpos : 0 < u - l := by have := hcell.1; linarith
-        have h1 : (x - l) * deficit hot cold u ≤ (x - l) * t.qh :=
-          mul_le_mul_of_nonneg_left hu (by linarith)
-        have h2 : (u - x) * deficit hot cold l ≤ (u - x) * t.qh :=
-          mul_le_mul_of_nonneg_left hl (by linarith)
-        have h3 : (u - l) * deficit hot cold x ≤ (u - l) * t.qh := by
-          rw [hd]; have : (u - l) * t.qh = (x - l) * t.qh + (u - x) * t.qh := by ring
-          rw [this]; exact add_le_add h1 h2
-        exact le_of_mul_le_mul_left h3 hpos
+  exact ⟨t, ht, deficit_le_of_grid w hw hot cold t0 rest hr hch t.qh hmax, ⟨xa, hatt⟩, h0, hqc, hqr⟩
 
 /-- The activity window and tolerance of the code satisfy the side conditions of the theorems. -/
 theorem window_ok : 0 ≤ Gen.activityFactor * Gen.tol ∧ Gen.tol ≤ Gen.activityFactor * Gen.tol := by
